@@ -18,6 +18,12 @@ var c13LibMapSources = []string{
 	`[{t: 0.0, x: 1.0}, {t: 1.0, x: 2.0}].iirApply(createLowPass("lp", p -> p.t, p -> p.x, 1.0)).first()`,
 	`[{t: 0.0, x: 1.0}, {t: 1.0, x: 2.0}].iirApply(createLowPass("lp", p -> p.t, p -> p.x, 1.0)).last().put("more", 1)`,
 	`createLowPass("lp", p -> p.t, p -> p.x, 1.0)`,
+	// the name of the filtered value collides with a key of the items (repair da223be: was a map with a duplicate key)
+	`createLowPass("x", p -> p.t, p -> p.x, 1.0).initial({t: 0.0, x: 1.0})`,
+	`createLowPass("t", p -> p.t, p -> p.x, 1.0).initial({t: 0.0, x: 1.0, y: 2})`,
+	`[{t: 0.0, x: 1.0}, {t: 1.0, x: 2.0}, {t: 2.0, x: 4.0}].iirApply(createLowPass("x", p -> p.t, p -> p.x, 1.0)).last()`,
+	`[{t: 0.0, x: 1.0, lp: 7}, {t: 1.0, x: 2.0}].iirApply(createLowPass("lp", p -> p.t, p -> p.x, 1.0)).first()`,
+	`[{t: 0.0, x: 1.0}, {t: 1.0, x: 2.0, lp: 7}].iirApply(createLowPass("lp", p -> p.t, p -> p.x, 1.0)).last()`,
 	`goto(3)`,
 	`goto(3).put("k", 1)`,
 	`[1, 2, 3].minMax(e -> e)`,
@@ -54,6 +60,7 @@ func c13LibraryMaps(c *Ctx) {
 		}
 		checks := []struct{ name, expr, want string }{
 			{"size=list().size()", "m.list().size()", base},
+			{"listed keys are unique", "m.list().uniqueString(e -> e.key).size()", base},
 			{"size=eval().size()", "m.eval().size()", base},
 			{"size=map().size()", "m.map((k, v) -> 0).size()", base},
 			{"size=accept(true).size()", "m.accept((k, v) -> true).size()", base},
